@@ -354,6 +354,10 @@ pub fn adversarial(rng: &mut Rng, c: &Corpus) -> Circuit {
                     _ => R1Op::IsNonnegative(ix(rng)),
                 });
             }
+            _ if rng.chance(1, 2) => {
+                ops.push(R1Op::AllocUnchecked { offer: offer(rng, c) });
+                ops.push(R1Op::IsEq(ix(rng), LAST));
+            }
             _ => {
                 ops.push(R1Op::Add(ix(rng), ix(rng)));
                 ops.push(R1Op::Compress(ix(rng)));
